@@ -11,6 +11,7 @@ import (
 	"path/filepath"
 	"reflect"
 	"runtime"
+	"sort"
 	"strings"
 
 	"github.com/blinklabs-io/gouroboros/cbor"
@@ -43,6 +44,90 @@ type era struct {
 	pp      func(a, b, max uint) common.ProtocolParameters
 	ppType  reflect.Type
 	minFee  func(common.Transaction, common.ProtocolParameters) (uint64, error)
+}
+
+// txTypes: the transaction struct of each era (for the body's field tags)
+var txTypes = map[uint]reflect.Type{
+	shelley.TxTypeShelley:   reflect.TypeOf(shelley.ShelleyTransaction{}),
+	allegra.TxTypeAllegra:   reflect.TypeOf(allegra.AllegraTransaction{}),
+	mary.TxTypeMary:         reflect.TypeOf(mary.MaryTransaction{}),
+	alonzo.TxTypeAlonzo:     reflect.TypeOf(alonzo.AlonzoTransaction{}),
+	babbage.TxTypeBabbage:   reflect.TypeOf(babbage.BabbageTransaction{}),
+	conway.TxTypeConway:     reflect.TypeOf(conway.ConwayTransaction{}),
+	dijkstra.TxTypeDijkstra: reflect.TypeOf(dijkstra.DijkstraTransaction{}),
+}
+
+// bodyKeys lists the integer map keys of the era's transaction body, read
+// from the `cbor:"N,keyasint"` tags of its struct (so a field added later is
+// picked up without touching the harness).
+func bodyKeys(e *era) []uint64 {
+	t, ok := txTypes[e.id]
+	if !ok {
+		return nil
+	}
+	f, ok := t.FieldByName("Body")
+	if !ok {
+		return nil
+	}
+	bt := f.Type
+	var out []uint64
+	for i := 0; i < bt.NumField(); i++ {
+		tag := bt.Field(i).Tag.Get("cbor")
+		parts := strings.Split(tag, ",")
+		if len(parts) < 2 || parts[1] != "keyasint" {
+			continue
+		}
+		var k uint64
+		if _, err := fmt.Sscan(parts[0], &k); err == nil {
+			out = append(out, k)
+		}
+	}
+	sort.Slice(out, func(i, j int) bool { return out[i] < out[j] })
+	return out
+}
+
+func rewardAddr(r *vh.Rng) *vh.Item { return vh.B(append([]byte{0xe1}, r.Bytes(28)...)) }
+
+// fieldValues proposes values for an optional body key: the specific shape
+// where we know it, then generic shapes (for keys added after this harness
+// was written).  The first one the era's decoder accepts is used.
+func fieldValues(r *vh.Rng, e *era, k uint64) []*vh.Item {
+	out := func() *vh.Item {
+		if e.id >= babbage.TxTypeBabbage {
+			return vh.M(vh.U(0), addr(r), vh.U(1), vh.U(1500000))
+		}
+		return vh.A(addr(r), vh.U(1500000))
+	}
+	var spec []*vh.Item
+	switch k {
+	case 3, 8:
+		spec = []*vh.Item{vh.U(uint64(1 + r.Intn(1<<30)))}
+	case 4:
+		spec = []*vh.Item{vh.A(vh.A(vh.U(0), vh.A(vh.U(0), vh.B(r.Bytes(28)))))}
+	case 5:
+		spec = []*vh.Item{vh.M(rewardAddr(r), vh.U(uint64(1+r.Intn(1000))))}
+	case 7, 11:
+		spec = []*vh.Item{vh.B(r.Bytes(32))}
+	case 9:
+		spec = []*vh.Item{vh.M(vh.B(r.Bytes(28)), vh.M(vh.B(r.Bytes(4)), vh.U(uint64(1+r.Intn(100)))))}
+	case 13, 18:
+		spec = []*vh.Item{vh.A(input(r))}
+	case 14:
+		spec = []*vh.Item{vh.A(vh.B(r.Bytes(28))), vh.TagOf(258, vh.A(vh.A(vh.U(0), vh.B(r.Bytes(28)))))}
+	case 15:
+		spec = []*vh.Item{vh.U(uint64(r.Intn(2)))}
+	case 16:
+		spec = []*vh.Item{out()}
+	case 17, 21, 22:
+		spec = []*vh.Item{vh.U(uint64(1 + r.Intn(5000000)))}
+	case 19:
+		spec = []*vh.Item{vh.M(vh.A(vh.U(2), vh.B(r.Bytes(28))), vh.M(vh.A(vh.B(r.Bytes(32)), vh.U(0)), vh.A(vh.U(1), vh.Null())))}
+	case 20:
+		spec = []*vh.Item{vh.A(vh.A(vh.U(1000000), rewardAddr(r), vh.A(vh.U(6)), vh.A(vh.T("https://x"), vh.B(r.Bytes(32)))))}
+	case 25:
+		spec = []*vh.Item{vh.M(rewardAddr(r), vh.U(5))}
+	}
+	return append(spec, vh.U(1), vh.A(), vh.M(), vh.B(r.Bytes(28)), vh.B(r.Bytes(32)), vh.A(vh.U(1)), vh.Null())
 }
 
 var eras = []era{
@@ -148,7 +233,7 @@ func addr(r *vh.Rng) *vh.Item { return vh.B(append([]byte{0x61}, r.Bytes(28)...)
 func input(r *vh.Rng) *vh.Item { return vh.A(vh.B(r.Bytes(32)), vh.U(uint64(r.Intn(4)))) }
 
 // body builds a minimal transaction body the decoders of every era accept.
-func body(r *vh.Rng, e *era, fee uint64) *vh.Item {
+func body(r *vh.Rng, e *era, fee uint64, extra ...*vh.Item) *vh.Item {
 	nin, nout := 1+r.Intn(2), 1+r.Intn(2)
 	var ins, outs []*vh.Item
 	for i := 0; i < nin; i++ {
@@ -163,11 +248,63 @@ func body(r *vh.Rng, e *era, fee uint64) *vh.Item {
 		}
 	}
 	kvs := []*vh.Item{vh.U(0), vh.A(ins...), vh.U(1), vh.A(outs...), vh.U(2), vh.U(fee)}
-	if e.id == shelley.TxTypeShelley || r.Bool() {
+	has3 := false
+	for i := 0; i+1 < len(extra); i += 2 {
+		has3 = has3 || extra[i].N == 3
+	}
+	if !has3 && (e.id == shelley.TxTypeShelley || r.Bool()) {
 		kvs = append(kvs, vh.U(3), vh.U(uint64(r.Intn(1<<30))))
+	}
+	kvs = append(kvs, extra...)
+	// keys in ascending order, as a wallet would write them
+	type kv struct{ k, v *vh.Item }
+	var ps []kv
+	for i := 0; i+1 < len(kvs); i += 2 {
+		ps = append(ps, kv{kvs[i], kvs[i+1]})
+	}
+	sort.SliceStable(ps, func(i, j int) bool { return ps[i].k.N < ps[j].k.N })
+	kvs = kvs[:0]
+	for _, p := range ps {
+		kvs = append(kvs, p.k, p.v)
 	}
 	return vh.M(kvs...)
 }
+
+// envelopeWith: explicit is_valid flag and extra body fields.
+func envelopeWith(r *vh.Rng, e *era, fee uint64, valid bool, extra ...*vh.Item) *vh.Item {
+	b, w, a := body(r, e, fee, extra...), witnesses(r), auxData(r)
+	if e.id < alonzo.TxTypeAlonzo {
+		return vh.A(b, w, a)
+	}
+	return vh.A(b, w, vh.BoolItem(valid), a)
+}
+
+// acceptedFields probes, per era, which optional body keys the decoder takes
+// with which value; the result drives the field-variation cases.
+func acceptedFields(c *vh.Ctx, e *era) map[uint64]func(*vh.Rng) *vh.Item {
+	out := map[uint64]func(*vh.Rng) *vh.Item{}
+	probe := vh.NewRng(uint64(e.id) + 77)
+	for _, k := range bodyKeys(e) {
+		if k <= 2 {
+			continue
+		}
+		k := k
+		for idx := range fieldValues(probe, e, k) {
+			idx := idx
+			mk := func(r *vh.Rng) *vh.Item { return fieldValues(r, e, k)[idx] }
+			raw := envelopeWith(probe, e, 200000, true, vh.U(k), mk(probe)).Enc()
+			if _, err := ledger.NewTransactionFromCbor(e.id, raw); err == nil {
+				out[k] = mk
+				break
+			}
+		}
+		if _, ok := out[k]; !ok {
+			c.Res.Distribution[fmt.Sprintf("body-key-not-generated/%s/%d", e.name, k)]++
+		}
+	}
+	return out
+}
+
 
 func witnesses(r *vh.Rng) *vh.Item {
 	if r.Intn(3) == 0 {
@@ -308,9 +445,32 @@ func runTx(c *vh.Ctx, cf *vh.CaseFile, e *era, raw []byte, a, b, maxsz uint64, c
 	if xerr != nil && !errors.As(xerr, &tooBig) {
 		c.Res.Violate("monitor", "maxsize-rule-unexpected-error:"+e.name, "max-size rule returned an unexpected error: "+xerr.Error(), rc)
 	}
-	fee := tx.Fee()
-	if fee == nil {
-		fee = new(big.Int)
+	libFee := tx.Fee()
+	if libFee == nil {
+		libFee = new(big.Int)
+	}
+	// the declared fee and the body keys, from the independent walk
+	fee := new(big.Int)
+	var keys []string
+	isValidW := "absent"
+	if len(it.Xs) > 0 && it.Xs[0].K == vh.KMap {
+		bm := it.Xs[0]
+		for i := 0; i+1 < len(bm.Xs); i += 2 {
+			if bm.Xs[i].K != vh.KUInt {
+				continue
+			}
+			keys = append(keys, vh.N(bm.Xs[i].N))
+			if bm.Xs[i].N == 2 && bm.Xs[i+1].K == vh.KUInt {
+				fee.SetUint64(bm.Xs[i+1].N)
+			}
+		}
+	}
+	if e.id >= alonzo.TxTypeAlonzo && len(it.Xs) == 4 && it.Xs[2].K == vh.KSimple {
+		isValidW = fmt.Sprint(it.Xs[2].N == 21)
+	}
+	c.Res.Distribution[fmt.Sprintf("is_valid/%s/%s", e.name, isValidW)]++
+	if fee.Cmp(libFee) != 0 {
+		c.Res.Violate("monitor", "fee-accessor:"+e.name, fmt.Sprintf("tx.Fee()=%s, body key 2 holds %s", libFee, fee), rc)
 	}
 
 	// ---- monitor -----------------------------------------------------------
@@ -351,7 +511,16 @@ func runTx(c *vh.Ctx, cf *vh.CaseFile, e *era, raw []byte, a, b, maxsz uint64, c
 	}
 
 	// ---- correspondence ----------------------------------------------------
-	cf.Add(fmt.Sprintf("CTx %s %s %s %s %s %s %s %s %s %s", vh.N(uint64(e.id)), vh.Bytes(raw), vh.BigN(fee), vh.N(a), vh.N(b), vh.N(maxsz),
+	optBig := func(v *big.Int) string {
+		if v == nil || v.Sign() < 0 {
+			return "None"
+		}
+		return "(Some " + vh.BigN(v) + ")"
+	}
+	rec := fmt.Sprintf("{| t_era := %s; t_stored := %s; t_fee := %s; t_is_valid := %s; t_total_collateral := %s; t_has_collateral_return := %s; t_donation := %s; t_treasury := %s; t_body_keys := %s |}",
+		vh.N(uint64(e.id)), vh.Bytes(raw), vh.BigN(libFee), vh.Bool(tx.IsValid()), optBig(tx.TotalCollateral()), vh.Bool(tx.CollateralReturn() != nil),
+		optBig(tx.Donation()), optBig(tx.CurrentTreasuryValue()), vh.List(keys))
+	cf.Add(fmt.Sprintf("CTx %s %s %s %s %s %s %s %s", rec, vh.N(a), vh.N(b), vh.N(maxsz),
 		vh.N(uint64(gotSize)), optN(minFee, merr == nil), vh.N(uint64(feeObs)), vh.Bool(maxOK)), rc)
 	return true
 }
@@ -538,10 +707,13 @@ func withOuter(it *vh.Item, f vh.Form) *vh.Item {
 }
 
 func run(c *vh.Ctx) error {
-	c.Res.Rule = "transactions of Shelley..Dijkstra, built from CBOR trees (1-2 inputs/outputs, with/without vkey witnesses, metadata, ttl; 3- and 4-element envelopes) and taken from the fixture blocks; every outer array header form (immediate, 1/2/4/8-byte count, indefinite) plus random non-minimal inner headers; (a,b) chosen so that a*size+b = fee-1 / fee / fee+1, or at 2^64-1 / 2^64 / multiplication overflow by one / a=2^64-1 / b near 2^64; MaxTxSize = len-1 / len / len+1 / 0 / 2^64-1; plus direct CalculateMinFee, DecodeArrayHeader and ListLength cases. distinct by (tx bytes, a, b, max); non-trivial = non-immediate outer header or 4-element envelope"
+	c.Res.Rule = "transactions of Shelley..Dijkstra, built from CBOR trees (1-2 inputs/outputs, with/without vkey witnesses, metadata, ttl; 3- and 4-element envelopes) and taken from the fixture blocks; every outer array header form (immediate, 1/2/4/8-byte count, indefinite) plus random non-minimal inner headers; (a,b) chosen so that a*size+b = fee-1 / fee / fee+1, or at 2^64-1 / 2^64 / multiplication overflow by one / a=2^64-1 / b near 2^64; MaxTxSize = len-1 / len / len+1 / 0 / 2^64-1; every optional body key of the era (enumerated from the body struct's cbor tags by reflection; value shapes probed against the decoder) switched on alone and in random groups with is_valid true/false and fee = min-1/min/min+1, total_collateral 0 / 1 / min-1 / min / min+1 / fee / 5*fee / 2^64-1 with and without collateral return and collateral inputs; plus direct CalculateMinFee, DecodeArrayHeader and ListLength cases. distinct by (tx bytes, a, b, max); non-trivial = non-immediate outer header or 4-element envelope"
 	c.Res.Modelled = []string{
 		"the third-party CBOR decoder behind cbor.ListLength / cbor.Decode is modelled by Lib/CborParse.parse_full (RFC 8949 well-formedness); validated on every case",
 		"uint/int are 64-bit (checked by the translator: Gen.uint_bits); tx.Cbor() is the stored original encoding (programmatically built transactions without stored bytes are out of scope)",
+	}
+	if c.Res.Distribution == nil {
+		c.Res.Distribution = map[string]int{}
 	}
 	cf := c.NewCaseFile("c30", header)
 	cf.SetShardSize(c.Pick(150, 300))
@@ -613,6 +785,84 @@ func run(c *vh.Ctx) error {
 						if !runTx(c, cf, e, raw, a, b, maxSize(r, len(raw)), "gen/"+cls) {
 							break
 						}
+					}
+				}
+			}
+		}
+	}
+
+	// ---- every optional body field / is_valid, independently of the fee ------
+	// The verdict depends on (fee, size, a, b) only: each field is switched on
+	// alone and in random groups, with is_valid true and false, fee = min-1 /
+	// min / min+1; total_collateral additionally below / at / above the minimum
+	// fee and at 0 and 2^64-1.
+	exact := func(e *era, raw []byte, fee uint64, delta int64) (uint64, uint64, bool) {
+		size, _, err := oracleSize(e, raw)
+		if err != nil {
+			return 0, 0, false
+		}
+		min := int64(fee) - delta // fee - min = delta
+		a := uint64(44)
+		if int64(a)*int64(size) > min {
+			a = 0
+		}
+		return a, uint64(min - int64(a)*int64(size)), true
+	}
+	for i := range eras {
+		e := &eras[i]
+		acc := acceptedFields(c, e)
+		var ks []uint64
+		for k := range acc {
+			ks = append(ks, k)
+		}
+		sort.Slice(ks, func(i, j int) bool { return ks[i] < ks[j] })
+		valids := []bool{true}
+		if e.id >= alonzo.TxTypeAlonzo && e.id != dijkstra.TxTypeDijkstra {
+			valids = []bool{false, true}
+		}
+		const fee = 300000
+		one := func(valid bool, delta int64, class string, extra ...*vh.Item) {
+			raw := envelopeWith(r, e, fee, valid, extra...).Enc()
+			if a, b, ok := exact(e, raw, fee, delta); ok {
+				runTx(c, cf, e, raw, a, b, maxSize(r, len(raw)), class)
+			}
+		}
+		for n, k := range ks {
+			c.Res.Distribution[fmt.Sprintf("body-key/%s/%d", e.name, k)]++
+			for vi, valid := range valids {
+				// below the minimum with the field present must stay rejected, at the minimum accepted
+				one(valid, -1, fmt.Sprintf("fields/single/is_valid=%v/fee=min-1", valid), vh.U(k), acc[k](r))
+				one(valid, int64((n+vi)%2), fmt.Sprintf("fields/single/is_valid=%v/fee>=min", valid), vh.U(k), acc[k](r))
+			}
+		}
+		// random groups of fields
+		for g := 0; g < c.Pick(4, 30) && len(ks) > 0; g++ {
+			var extra []*vh.Item
+			for _, k := range ks {
+				if r.Intn(3) == 0 {
+					extra = append(extra, vh.U(k), acc[k](r))
+				}
+			}
+			one(valids[r.Intn(len(valids))], int64(r.Intn(3))-1, "fields/group", extra...)
+		}
+		// total collateral against the minimum fee
+		if _, ok := acc[17]; ok {
+			for _, valid := range valids {
+				for _, delta := range []int64{-1, 0, 1} {
+					min := uint64(fee - delta)
+					for _, tc := range []uint64{0, 1, min - 1, min, min + 1, fee, 5 * fee, ^uint64(0)} {
+						extra := []*vh.Item{vh.U(17), vh.U(tc)}
+						if r.Bool() {
+							if mk, ok := acc[16]; ok {
+								extra = append(extra, vh.U(16), mk(r))
+							}
+						}
+						if r.Bool() {
+							if mk, ok := acc[13]; ok {
+								extra = append(extra, vh.U(13), mk(r))
+							}
+						}
+						one(valid, delta, fmt.Sprintf("fields/total-collateral/is_valid=%v/fee-min=%d", valid, delta), extra...)
 					}
 				}
 			}
